@@ -412,6 +412,13 @@ func checkExactlyOnce(vd *Verdict, v *prioView) {
 		wantSet[it] = true
 	}
 
+	for _, r := range v.res.Hist {
+		// a write that was handed over but not yet logged as completed when the run ended
+		if r.Kind == simrt.KNote && r.Note == "write-start" {
+			wantSet[int(r.Val)] = true
+		}
+	}
+
 	seen := map[int]int{}
 
 	var delivered []pitem
